@@ -13,7 +13,7 @@ func runC03(c *ev.Ctx) {
 		"Oracle per block: Cheaters == [v in canonical order (weight desc, id asc) | two different events of v with equal seq are ancestors-or-self of the Atropos], computed from the reference's graph closure. " +
 		"non-trivial = distinct DAG fingerprint having a block with a non-empty expected list, or a block whose expected list is empty although forks already exist in the epoch (fork not visible to the Atropos)"
 	c.Assumptions = []string{"reference forkSeen = scan of the Atropos' ancestor closure for equal (creator, seq) with different IDs"}
-	o := &campOpts{nDAGs: c.Pick(400, 8000), orders: c.Pick(3, 5), maxN: c.Pick(10, 16), minEvents: 60, maxEvents: c.Pick(350, 700), maxEpochs: 3,
+	o := &campOpts{nDAGs: c.Pick(700, 8000), orders: c.Pick(3, 5), maxN: c.Pick(10, 16), minEvents: 60, maxEvents: c.Pick(350, 700), maxEpochs: 3,
 		cheat: cons.CheatAny, critOnlyBelowThird: true,
 		mine: map[string]bool{cons.DCheaters: true},
 		nontrivial: func(d *cons.DAG, ts []*cons.Trace) bool {
